@@ -344,6 +344,7 @@ class Engine:
                     break
                 # I4: every delivered *error* fault on an include read / inventory fetch is reported
                 new = [m for m in res["msgs"] if m not in set(rec["msgs"])]
+                eligible: set = set()
                 for d in res["delivered"]:
                     if d["kind"] not in ERROR_KINDS or d["op"] not in ("open", "urlopen"):
                         continue
@@ -359,6 +360,7 @@ class Engine:
                         count("i4_skipped_call_failed_in_recording")
                         continue
                     count("i4_checked")
+                    eligible.add((d["site"], d["op"], d["rel"], d["nth"]))
                     if not new:
                         violate("I4", f"{fe}:{d['site']}/{d['op']}/{d['kind']}:not-reported", fp,
                                 front_end=fe, delivered=res["delivered"], messages_before=rec["msgs"][:12],
@@ -366,6 +368,13 @@ class Engine:
                         break
                 if violations:
                     break
+                if len(eligible) >= 2:
+                    # several failing reads in one pass: each has its own report (a different file, key or line)
+                    count("i4_checked_multi")
+                    if len(new) < len(eligible):
+                        violate("I4", f"{fe}:{len(eligible)}-faults:fewer-reports-than-faults", fp, front_end=fe,
+                                delivered=res["delivered"], new_messages=new[:12])
+                        break
             if plan["mode"] == "sweep" and not violations and exhaustive:
                 count("sweeps_completed_exhaustively")
                 count("sweep_single_fault_plans", len(fault_plans))
